@@ -477,6 +477,9 @@ def check_hist(prop, tier, seed, replay=None):
                     scen = "-"
                 if v.get("class") in ("temporary_not_released", "release_of_temporaries_depends_on_history_or_heap"):
                     who = leaker(sym, v.get("bt"))
+                if v.get("class") == "dirty_padding":
+                    mm = re.search(r"op (\w+)", v.get("detail", ""))
+                    scen = mm.group(1) if mm else "-"  # the call after which an owned matrix had excess bits set
                 return "hist|%s|%s|%s" % (scen, v.get("class"), who)
             process_violations(rep, exe, mine, None, outdir, seed, sig,
                                keep_pred=lambda l: l.startswith("#") or l.startswith("lib ") or l.startswith("world 0") or l.startswith("illdim"),
